@@ -154,6 +154,11 @@ class Ctx(object):
             if isinstance(case, dict) and 'via' not in case:
                 case = dict(case, via=_shapes.CURRENT_VIA)      # so that the replay rebuilds the object the same way
             features = dict(features or {}, via=_shapes.CURRENT_VIA)
+        sess = getattr(self, 'session', None)
+        if sess:
+            # inside a long session (run_session): the replay has to re-run the session up to this step, not the step alone
+            case = dict(sess['case'], upto=sess['index'], inner=case)
+            features = dict(features or {}, session=sess['case'].get('name'), session_step=sess['index'])
         rec = dict(obligation=obligation, case=case, features=features or {},
                    expected=_js(expected), observed=_js(observed), message=msg)
         kf = match_known(self.known, obligation, features)
@@ -165,6 +170,8 @@ class Ctx(object):
             self.nviol[obligation] += 1
             if len(self.records[obligation]) < MAX_RECORDS:
                 self.records[obligation].append(rec)
+            elif sess and not any((r.get('features') or {}).get('session') for r in self.records[obligation]):
+                self.records[obligation][-1] = rec        # keep one record that carries its session
         return False
 
     def close(self, obligation, observed, expected, tol, scale, case=None, features=None, msg=None):
@@ -301,6 +308,22 @@ def _worker(args):
     return ctx.export()
 
 
+def run_session(mod, ctx, case, subcases, repeat_first):
+    """E2 'long session' schedule (DESIGN §6, wave 8): many judged sub-cases with pairwise different arguments are run one
+    after the other in ONE process and the first `repeat_first` of them are run again at the end - the schedule (sweep)(head of
+    the sweep again).  Whatever the process remembers between calls (memo tables, counters, recycled slots, accumulated
+    values) has then been filled far beyond any small capacity when the early requests come back."""
+    seq = list(subcases) + list(subcases[:repeat_first])
+    upto = case.get('upto', len(seq) - 1)
+    try:
+        for i, sc in enumerate(seq[:upto + 1]):
+            ctx.session = dict(case={k: v for k, v in case.items() if k not in ('upto', 'inner')}, index=i)
+            mod.run_case(sc, ctx)
+    finally:
+        ctx.session = None
+    ctx.extra['session_steps'] += min(len(seq), upto + 1)
+
+
 def run_cases(mod, tier, seed, budget_s, nproc=None):
     """enumerate mod.gen_cases and run them on up to 16 processes; returns (ctx, info)"""
     t0 = time.time()
@@ -366,6 +389,42 @@ def run_cases(mod, tier, seed, budget_s, nproc=None):
 # reporting
 # ----------------------------------------------------------------------------------------
 
+def _reproduces_alone(mod, rec, tier, seed):
+    """run the recorded case alone in a forked child of this (so far idle) process; True iff the obligation fails again"""
+    r, w = os.pipe()
+    pid = os.fork()
+    if pid == 0:
+        ok = b'0'
+        try:
+            os.close(r)
+            from . import shapes as _shapes
+            c = Ctx(mod.PROPERTY, tier, seed, known=[])
+            case = rec['case']
+            _shapes.CURRENT_VIA = case.get('via') if isinstance(case, dict) else None
+            with quiet():
+                try:
+                    mod.run_case(case, c)
+                except Exception:
+                    pass
+            if c.nviol.get(rec['obligation'], 0):
+                ok = b'1'
+        except BaseException:
+            pass
+        finally:
+            try:
+                os.write(w, ok)
+            finally:
+                os._exit(0)
+    os.close(w)
+    data = b''
+    try:
+        with os.fdopen(r, 'rb') as fh:
+            data = fh.read()
+    finally:
+        os.waitpid(pid, 0)
+    return data == b'1'
+
+
 def write_replay(prop, rec):
     os.makedirs(os.path.join(OUT, 'replays'), exist_ok=True)
     body = dict(property=prop, obligation=rec['obligation'], case=rec['case'], features=rec.get('features'),
@@ -393,8 +452,17 @@ def report(mod, ctx, info, tier, seed, wall, extra_cov=None):
             ctx.nviol[rec['obligation']] += len(ctx.errors)
             ctx.records[rec['obligation']].append(rec)
     for obl in sorted(ctx.nviol):
-        recs = sorted(ctx.records[obl], key=_rank)
-        path = write_replay(prop, recs[0]) if recs else '-'
+        # the replay artefact is the smallest recorded case that fails again when run ALONE in a fresh process; failures that
+        # depend on what the worker process did before (long sessions) are recorded with their session, which is re-run
+        recs = sorted(ctx.records[obl], key=lambda r: (0 if (r.get('features') or {}).get('session') is None else 1, _rank(r)))
+        pick = None
+        for r in recs[:4] + [r for r in recs if (r.get('features') or {}).get('session') is not None][:2]:
+            if obl.endswith('.harness.no_crash') or _reproduces_alone(mod, r, tier, seed):
+                pick = r
+                break
+        if pick is None and recs:
+            pick = dict(recs[0], features=dict(recs[0].get('features') or {}, reproduces_alone=False))
+        path = write_replay(prop, pick) if pick else '-'
         lines.append("VIOLATION property=%s replay=%s obligation=%s count=%d" % (prop, path, obl, ctx.nviol[obl]))
         exit_code = 1
     for e in ctx.known:
